@@ -125,7 +125,7 @@ pub fn run_fe_case(ctx: &mut Ctx, c: &FeCase) -> Result<(), String> {
     }
     let (mut f, peer) = frontend_in_state(&st);
     let mut lent = make_lent(&c.op);
-    let mut want_ids = lent.ids.clone();
+    let mut want_ids = lent.wire_ids();
     want_ids.truncate(wire_body(&c.op, &st).1);
     // pre-queue what a conforming back end answers
     let reply = reply_for(&c.op, &st, &c.rv);
@@ -477,7 +477,7 @@ pub fn run(ctx: &mut Ctx) {
         ex.push(FeCase { op: FeOp::GetConfig { off, size: len as u32, flags: (len % 4) as u32 }, rv: ReplyVals { bytes_seed: len as u8, ..Default::default() }, need_reply: len % 2 == 1, all_features: true });
     }
     for n in 1..=32usize {
-        let regs: Vec<feops::Reg> = (0..n).map(|k| feops::Reg { f: [0x10000 * k as u64 + n as u64, 0x1000 + k as u64, u64::MAX - 0x10_0000 * (k as u64 + 1), k as u64], kind: crate::fdtrack::FD_KINDS[k % 5] }).collect();
+        let regs: Vec<feops::Reg> = (0..n).map(|k| feops::Reg { f: [0x10000 * k as u64 + n as u64, 0x1000 + k as u64, u64::MAX - 0x10_0000 * (k as u64 + 1), k as u64], kind: crate::fdtrack::FD_KINDS[k % 5], share: k % 3 == 2 }).collect();
         ex.push(FeCase { op: FeOp::SetMemTable(regs), rv: ReplyVals::default(), need_reply: n % 2 == 0, all_features: true });
     }
     ctx.extra.insert("exhaustive_lengths_and_counts".into(), json!(ex.len()));
